@@ -294,3 +294,25 @@ class reconcile_targets:
 
         vcrt.index_of(self.targets, ghost.p0)
         return wrap_bool(tm.Implies(_member(self.targets, ghost.p0), tm.Not(invalid(ghost.p0))))
+
+
+# ---- Workflow.is_regular_output (what "not produced by any step" in the end-of-build report is judged by)
+
+from contracts import C19_status  # noqa: E402,F401  (declares the contract the reporting functions call)
+from vc import engine  # noqa: E402
+
+OUTPUT_STATES = tuple(common.enums.FILE_STATES_BY_ROLE[common.FileRole.OUTPUT])
+
+
+def _iro_post(self, path, result):
+    """True exactly for a path that an attached file node claims, created by a step, in a state of a regular output."""
+    return wrap_bool(tm.Iff(B(result), tm.And(attached(path), creator_is_step(path),
+                                              tm.Or(*[tm.Eq(state_t(path), tm.mk_int(s.value)) for s in OUTPUT_STATES]))))
+
+
+_iro = engine.REGISTRY["stepup/core/workflow.py::Workflow.is_regular_output"]
+_iro.verify = True
+_iro.props = ["C19", "C11"]
+_iro.note = ""
+_iro.args = dict(self=lambda a: workflow_spec([]).fresh("workflow"), path=ty.Str)
+_iro.ensures = _iro_post
